@@ -24,14 +24,20 @@ Proof.
 Qed.
 Print Assumptions C12_disk_invariant.
 
-(* after a restart an entry is loaded iff the disk has such a list for it *)
+(* after a restart an entry is loaded iff the disk has such a list for it and the list counts under the
+   configuration (under 'verify': stored with the certificate that verified it, still usable as a signer) *)
 Theorem C12_restart_loaded : forall cfg st id c,
   let e := new_entry cfg (restart cfg st) id c in
-  e_loaded e = true <-> exists v, r_storage cfg = Disk /\ lookup id (disk st) = Some v /\ e_list e = Some (fst v).
+  e_loaded e = true <->
+  exists l sg, r_storage cfg = Disk /\ lookup id (disk st) = Some (l, sg) /\
+               adopt_counts cfg sg (c_chain c) = true /\ e_list e = Some l.
 Proof.
   intros cfg st id c e. unfold e, new_entry, restart. simpl. destruct (r_storage cfg); simpl.
-  - split; [discriminate|intros (v & H & _); discriminate].
-  - destruct (lookup id (disk st)) as [v|]; simpl; split; try discriminate; eauto.
-    intros (v0 & _ & H & _). discriminate.
+  - split; [discriminate|intros (l & sg & H & _); discriminate].
+  - destruct (lookup id (disk st)) as [[l sg]|]; simpl.
+    + destruct (adopt_counts cfg sg (c_chain c)) eqn:Ea; simpl.
+      * split; [intros _; exists l, sg; auto|reflexivity].
+      * split; [discriminate|]. intros (l0 & sg0 & _ & [= <- <-] & Ha & _). congruence.
+    + split; [discriminate|intros (l0 & sg0 & _ & H & _); discriminate].
 Qed.
 Print Assumptions C12_restart_loaded.
